@@ -102,9 +102,10 @@ Print Assumptions answer_ad_sound_refuted.
    set was found for it, verifyDNSSEC accepted the response under it, and every wildcard expansion
    carries an authenticated next-closer denial.  (Missing for the full statement: provenance of that
    DS set — F9 — and authenticity of every key verifyDNSSEC used — F10.) *)
-Theorem answer_ad_partial : forall E qname qtype cd resp pds zone m,
+Theorem answer_ad_partial : forall E qname qtype cd resp0 pds zone m,
+  let resp := bailiwick zone resp0 in
   dname_target resp = None ->
-  validate_answer E qname qtype cd resp pds zone = Accept m -> m_ad resp = false ->
+  validate_answer E qname qtype cd resp0 pds zone = Accept m -> m_ad resp0 = false ->
   m_ad m = true ->
   cd = false /\ (e_dnssec E = true -> e_anchors E <> []) /\
   exists s ds, In s (find_signers (e_nrank E) (m_ans resp) qname true) /\
@@ -117,9 +118,10 @@ Print Assumptions answer_ad_partial.
 
 (* unsigned data is served only when the zone is not secure or an insecure delegation is proven, and that
    proof rests on a DS-denial response verifyDNSSEC accepted *)
-Theorem unsigned_only_when_insecure : forall E qname qtype resp pds zone m,
+Theorem unsigned_only_when_insecure : forall E qname qtype resp0 pds zone m,
+  let resp := bailiwick zone resp0 in
   dname_target resp = None ->
-  validate_answer E qname qtype false resp pds zone = Accept m ->
+  validate_answer E qname qtype false resp0 pds zone = Accept m ->
   find_signers (e_nrank E) (m_ans resp) qname true = [] ->
   is_zone_secure E qname pds zone = false \/ proven_insecure_delegation E zone qname pds = true.
 Proof. exact unsigned_only_when_insecure_lemma. Qed.
